@@ -79,17 +79,16 @@ def gridStepsFloat (a b dt : Float) : Int :=
   let n := (b - a) / dt
   if n < 0 then - ((-n).floor.toUInt64.toNat : Int) else (n.floor.toUInt64.toNat : Int)
 
-/-- the exact grid `start, start+dt, …` with `n+1` points -/
-def grid (start dt : Rat) (n : Nat) : List Rat := (List.range (n + 1)).map (fun (i : Nat) => start + (i : Rat) * dt)
+/-- the exact grid `start, start+dt, …` with `npts` points -/
+def grid (start dt : Rat) (npts : Nat) : List Rat := (List.range npts).map (fun (i : Nat) => start + (i : Rat) * dt)
 
-/-- number of points or the error `sc.inclusiverange`/`np.linspace`/`timevec[0]` raise -/
+/-- number of points `int_steps + 1`, or the error `sc.inclusiverange` / `np.linspace` raise -/
 def gridCount (v : Variant) (a b dt : Num) : Except Err Nat :=
   if dt.q = 0 then .error .other                  -- ZeroDivisionError
   else
     let n := gridSteps v a b dt
     if n + 1 < 0 then .error .value               -- np.linspace: negative number of samples
-    else if n + 1 = 0 then .error .other          -- empty vector: IndexError on timevec[0]
-    else .ok n.toNat
+    else .ok (n + 1).toNat
 
 /-! ### `date_add`, `date_diff`, `validate_time` -/
 
@@ -232,13 +231,14 @@ def initTime (v : Variant) (s : Spec) : Except Err Timeline := do
   | .num a, .num b =>
       -- numeric ground truth (also the unitless case)
       let n ← gridCount v a b s.dt
+      if n = 0 then throw Err.other             -- empty vector: IndexError on timevec[0]
       let offset : Rat := if a.f = 0 then (offsetYear s.unit : Rat) else 0
       let ratio := unitDays du / unitDays .year
       let timevec := (grid a.q s.dt.q n).map round6
       let t0 := round6 a.q
       let yearvec := timevec.map (fun t => round6 ((t - t0) * ratio + offset + t0))
       let datevec ← yearsToDates v yearvec
-      pure ⟨s.unit, s.start, s.stop, s.dt, n + 1, true, timevec, yearvec, datevec, tvecOf s.dt.q (n + 1), none⟩
+      pure ⟨s.unit, s.start, s.stop, s.dt, n, true, timevec, yearvec, datevec, tvecOf s.dt.q n, none⟩
   | .num _, .date _ => throw Err.type        -- sc.inclusiverange(number, date): TypeError
   | .date a, stop =>
       -- `date(self.stop)`: a numeric stop is read as a year
@@ -251,10 +251,9 @@ def initTime (v : Variant) (s : Spec) : Except Err Timeline := do
         let n ← gridCount v ay (dateToYearNum b) s.dt
         let yearvec := (grid ay.q s.dt.q n).map round6
         let datevec ← yearsToDates v yearvec
-        pure ⟨s.unit, .date a, .date b, s.dt, n + 1, false, [], yearvec, datevec, tvecOf s.dt.q (n + 1), none⟩
+        pure ⟨s.unit, .date a, .date b, s.dt, n, false, [], yearvec, datevec, tvecOf s.dt.q n, none⟩
       else
         let datevec ← calendarDates v du a b s.dt
-        if datevec.isEmpty then throw Err.other   -- stop before start: empty vector
         let yearvec := datevec.map (fun d => round6 (dateToYear d))
         pure ⟨s.unit, .date a, .date b, s.dt, datevec.length, false, [], yearvec, datevec,
               tvecOf s.dt.q datevec.length, none⟩
